@@ -56,8 +56,17 @@ const (
 	// and CBDT, so for a font without glyf/CFF/CFF2 it has no extents at all
 	// and skips fallback mark positioning / extents-based vertical origins.
 	ClsBitmapOnly = "skew(c) capability: font without outline tables (bitmap only), extents consulted (mark in text or vertical direction)"
+	// (c7b) HarfBuzz takes the extents of a COLRv1 base glyph from the COLR
+	// ClipList (hb_ot_get_glyph_extents asks COLR before glyf); go-text does
+	// not implement COLR, so an empty 'glyf' entry has zero extents. Witness:
+	// hb/fonts/adwaita.ttf gid 2 "icon0": 6.0.0 {180 960 1060 -1220}, port
+	// {0 0 0 0} (FreeType and the glyf table agree with the port: the glyph has
+	// no outline). A missing feature, not a defect of the shaper.
+	ClsCOLR = "skew(c) capability: font with a COLR table, extents consulted (HarfBuzz reads COLRv1 clip boxes, go-text has no COLR support)"
 	// (c8) the per-character USE categories are regenerated upstream for every
-	// release. Observed list of code points whose category differs between
+	// release. (A broader class "USE run with a mark-initial cluster" was tried
+	// and dropped: with it disabled 6.2M thorough cases show no USE
+	// disagreement outside this list.) Observed list of code points whose category differs between
 	// 6.0.0 and the port's table: U+07FD NKO DANTAYALAN (port: not in the table
 	// = O; 6.0.0 inserts a dotted circle before it like for a vowel modifier),
 	// U+0FC6 TIBETAN SYMBOL PADMA GDAN (6.0.0 ends the cluster after it).
@@ -77,40 +86,39 @@ const (
 	// MultipleSubst sequence a following mark attaches to. Witness: Newa
 	// U+11410 U+11440 U+11442 (O-sign split in two glyphs, virama after it):
 	// 6.0.0 leaves the virama unattached, the port attaches it to the base.
+	// The rule cuts both ways: repo/Amiri-Regular U+06D2 U+064D U+0654 U+06A9
+	// U+0655 LTR — the second glyph of the split yeh barree IS in the base
+	// coverage but has no anchor for the mark class: the newer rule stops at it
+	// (mark unattached), 6.0.0 skips it and attaches to the first glyph.
+	// (The port's stale base cache, c05 patch 5 / KeyLastBaseCache, looks the
+	// same from here — mark attached by 6.0.0, not by the port — and cannot be
+	// told apart in this class; C18 exposes it as an unsafe cut.)
 	// Predicate (font + glyph sequence, not "they differ"): a cluster of the
 	// output has more glyphs than characters and a GDEF mark glyph follows two
 	// or more non-mark glyphs of that cluster.
 	ClsMarkAfterMultiple = "skew(c) capability: mark after a MultipleSubst sequence (MarkBasePos base search changed upstream after 6.0.0, issue #4124)"
-	// (c11) UNATTRIBUTED (which side is right could not be established offline):
-	// GPOS attachment lookups (cursive / mark-to-base / -ligature / -mark,
-	// contextual positioning) reached through a feature that the user gives a
-	// different value on a sub-range than elsewhere (a range with value != 1 on
-	// a shaper-enabled feature, or the same tag listed twice with different
-	// scope and value), and shaper-internal per-syllable form features forced
-	// by the user in a complex-shaper run. Witnesses: Hebrew U+05E9 U+05BC
-	// U+05C1 U+05B8 cluster level 2 mark[2:3]=0 (6.0.0: all marks at offset 0,
-	// port: dagesh @209,13 qamats @127,0); aots gpos4_lookupflag_f1 with
-	// test=1,test[2:3]=0; Gurmukhi U+0A48 U+0A41 blwm=0,blwm[1:3]=1; Selawik
-	// mkmk[1:2]=2,mkmk=1; Devanagari U+091F U+091F U+200C U+094D half=1 (no
-	// feature: both attach the virama @4,0; half=1: 6.0.0 @0,0, port @-872,0).
-	// Ranged kern / liga (no attachment) agree on both sides. Roughly one
-	// disagreement per 300k cases. For a tag listed twice with different scope
-	// (any tag: witness Latin "uu\u0301\u0361\u034F\u0301i" ccmp[1:3]=0,ccmp=1)
-	// 6.0.0 merges the entries into a global one that shares the global mask bit
-	// and then clears that bit on the range, which switches every global feature
-	// off there; the port follows the documented rule "the feature with the
-	// higher index takes precedence".
-	ClsFeatureMerge = "unattributed: GPOS attachment feature with a user value that differs on a sub-range, or user-forced shaper-internal form feature"
-	// (c12) mark-initial (broken) cluster in a USE-shaper run: the per-character
-	// USE categories and the broken-cluster / dotted-circle handling are
-	// regenerated / revised upstream between releases (DESIGN: dotted-circle
-	// placement in USE-family scripts). Witnesses: Tibetan U+0FC6 U+0F3F
-	// (6.0.0 keeps the order and inserts two dotted circles, the port reorders
-	// the pre-base sign), Mongolian U+18A9 U+07FD.
-	ClsUSEMarkInitial = "skew(c) capability: USE-shaper run with a mark-initial (broken) cluster (USE data / dotted-circle handling revised after 6.0.0)"
-	ClsVarRounding    = "tolerance: interpolated values under variation coordinates differ by at most 1 font unit"
-	ClsGoPanic        = "go side panicked (C01)"
-	ClsCFail          = "reference failed: hb_shape_full returned false"
+	// (c11) base search of MarkBasePos / MarkLigPos when a glyph between the mark
+	// and its base does not carry the lookup's feature mask (a user feature
+	// given another value on a sub-range, the same tag listed twice with
+	// different scopes, or a shaper-internal per-syllable form feature forced by
+	// the user). 6.0.0 searches with skippy_iter.prev(), which gives up at the
+	// first glyph failing the mask test (NOT_MATCH) and leaves the mark
+	// unattached; upstream later rewrote the search as a plain backwards loop
+	// ("We don't use skippy_iter.prev() to avoid O(n^2) behavior", the code the
+	// port has) that passes over such glyphs. Established with a trace of the
+	// port on a scratch worktree: Hebrew U+05E9 U+05BC U+05C1 U+05B8, cluster
+	// level 2, mark[2:3]=0 — the shin dot (a base per GDEF in that font) lacks
+	// the mask bit 0x10 and is passed over, dagesh and qamats attach to the shin
+	// (@209,13 / @127,0); 6.0.0 stops at it (all marks @0,0, the same as
+	// without the feature where the shin dot is found as a non-covered base).
+	// Other witnesses: aots gpos4_lookupflag_f1 test=1,test[2:3]=0; Latin
+	// ccmp[1:3]=0,ccmp=1 (duplicate entries merge into a global feature whose
+	// shared global bit is then cleared on the range); Devanagari half=1.
+	// Ranged kern / liga (no base search) agree on both sides.
+	ClsFeatureMerge = "skew(c) capability: mark attachment base search across glyphs without the lookup mask (ranged / duplicated / forced internal user feature; 6.0.0 stops, newer upstream passes over)"
+	ClsVarRounding  = "tolerance: interpolated values under variation coordinates differ by at most 1 font unit"
+	ClsGoPanic      = "go side panicked (C01)"
+	ClsCFail        = "reference failed: hb_shape_full returned false"
 )
 
 // features the shapers enable on their own (hb-ot-shape.cc common and
@@ -252,6 +260,16 @@ func InputSkew(p *Pair, c *Case, rs Resolved, cat string, sk *Skew) string {
 		return ClsArabFallback
 	}
 	vertical := rs.Dir == hbref.DirTTB || rs.Dir == hbref.DirBTT
+	if fi.COLR {
+		if vertical {
+			return ClsCOLR
+		}
+		for _, r := range item {
+			if unicode.In(r, unicode.M) {
+				return ClsCOLR
+			}
+		}
+	}
 	if fi.NoOutlines {
 		if vertical {
 			return ClsBitmapOnly
@@ -284,17 +302,6 @@ func InputSkew(p *Pair, c *Case, rs Resolved, cat string, sk *Skew) string {
 		}
 	}
 	if cat == "use" {
-		for i, r := range item {
-			if !unicode.In(r, unicode.M) {
-				continue
-			}
-			if i == 0 {
-				return ClsUSEMarkInitial
-			}
-			if q := item[i-1]; !unicode.In(q, unicode.L, unicode.M, unicode.N) && q != 0x25CC && q != 0x200D && q != 0x200C && q != 0x034F {
-				return ClsUSEMarkInitial
-			}
-		}
 		for _, r := range item {
 			if r == 0x07FD || r == 0x0FC6 {
 				return ClsUSEData
@@ -406,7 +413,8 @@ func defectKey(p *Pair, c *Case, v *Verdict) string {
 	if fi.GoGSUBDropped {
 		return KeyGSUBDropped
 	}
-	if len(c.Vars) > 0 {
+	{
+		// a record can match the default instance too (no coordinates set)
 		coords := p.goFont(c).Face().Coords()
 		if p.Go.GSUB.FindVariationIndex(coords) >= 0 || p.Go.GPOS.FindVariationIndex(coords) >= 0 {
 			return KeyFeatureVariations
@@ -600,7 +608,6 @@ func Judge(p *Pair, c *Case, sk *Skew) Verdict {
 		return v
 	}
 	var ok bool
-	staleCache := false
 	v.C, ok = p.ShapeC(c, v.RS)
 	v.NonTrivial = !p.Trivial(c, v.RS, v.Go) || !p.Trivial(c, v.RS, v.C)
 	v.Differ = !Equal(v.Go, v.C)
@@ -616,19 +623,6 @@ func Judge(p *Pair, c *Case, sk *Skew) Verdict {
 	}
 	if cls == "" && markAfterMultiple(p, c, v.RS.Dir, v.Go) {
 		cls = ClsMarkAfterMultiple
-		// the skew goes one way only (6.0.0 misses an attachment the newer
-		// code makes); a mark attached by 6.0.0 and left at 0,0 by the port is
-		// the stale-cache defect, not skew
-		if len(v.Go) == len(v.C) {
-			for i := range v.Go {
-				g, r := v.Go[i], v.C[i]
-				if g.GID == r.GID && g.Cluster == r.Cluster && g.XOff == 0 && g.YOff == 0 && (r.XOff != 0 || r.YOff != 0) && g.XAdv == r.XAdv {
-					cls = ""
-					staleCache = true
-					break
-				}
-			}
-		}
 	}
 	if cls == "" && !ok {
 		cls = ClsCFail
@@ -644,9 +638,6 @@ func Judge(p *Pair, c *Case, sk *Skew) Verdict {
 		v.Kind = "violated"
 		kind := DiffKind(v.Go, v.C)
 		v.Key = defectKey(p, c, &v)
-		if staleCache && (v.Key == "" || v.Key == KeyEmptyExtents || v.Key == KeyExtentsDiffer) {
-			v.Key = KeyLastBaseCache
-		}
 		if v.Key == "" {
 			v.Key = fmt.Sprintf("C05/%s#%d/%s/%s differs", c.Font, c.Index, v.Cat, kind)
 		}
